@@ -6,6 +6,8 @@
 package vstub
 
 import (
+	"crypto/aes"
+	"crypto/cipher"
 	"hash"
 	"strconv"
 )
@@ -124,4 +126,128 @@ func (r *RandReader) Read(p []byte) (int, error) {
 	}
 	r.n += len(p)
 	return len(p), nil
+}
+
+// ---- AES as an arbitrary keyed permutation, GCM and CTR as uninterpreted functions ----
+
+// BlockUF: dir 0 = E_k(src), 1 = D_k(src); 16 bytes in, 16 bytes out; the engine simplifies D_k(E_k(x)) = x
+// and E_k(D_k(y)) = y.  (engine intrinsic)
+func BlockUF(dir int, key, src []byte) []byte {
+	// native body (replay): the real AES block operation
+	b, err := aes.NewCipher(key)
+	if err != nil {
+		panic(err)
+	}
+	out := make([]byte, 16)
+	if dir == 0 {
+		b.Encrypt(out, src)
+	} else {
+		b.Decrypt(out, src)
+	}
+	return out
+}
+
+// SealUF is GCM Seal as an uninterpreted function of (key, nonce, plaintext, aad): len(plaintext)+16 bytes.
+func SealUF(key, nonce, plaintext, aad []byte) []byte {
+	// native body (replay): the real AES-GCM Seal
+	b, err := aes.NewCipher(key)
+	if err != nil {
+		panic(err)
+	}
+	g, err := cipher.NewGCMWithNonceSize(b, len(nonce))
+	if err != nil {
+		panic(err)
+	}
+	return g.Seal(nil, nonce, plaintext, aad)
+}
+
+// OpenMatch: if ciphertext is the output of SealUF for exactly this key, nonce and aad, returns its plaintext.
+// Authenticity assumption: nothing else opens.
+func OpenMatch(key, nonce, ciphertext, aad []byte) ([]byte, bool) {
+	panic("vstub.OpenMatch is an engine intrinsic")
+}
+
+// KeystreamUF: byte number pos of the CTR keystream determined by key and iv.
+func KeystreamUF(key, iv []byte, pos int) byte { panic("vstub.KeystreamUF is an engine intrinsic") }
+
+type Block struct{ key []byte }
+
+var errKeySize = errorString("crypto/aes: invalid key size")
+
+type errorString string
+
+func (e errorString) Error() string { return string(e) }
+
+// NewAES models aes.NewCipher: keys of 16, 24 or 32 bytes give a block cipher, anything else an error.
+func NewAES(key []byte) (*Block, error) {
+	switch len(key) {
+	case 16, 24, 32:
+		return &Block{key: append([]byte(nil), key...)}, nil
+	}
+	return nil, errKeySize
+}
+
+func (b *Block) BlockSize() int { return 16 }
+func (b *Block) Encrypt(dst, src []byte) {
+	if len(src) < 16 {
+		panic("crypto/aes: input not full block")
+	}
+	if len(dst) < 16 {
+		panic("crypto/aes: output not full block")
+	}
+	copy(dst[:16], BlockUF(0, b.key, src[:16]))
+}
+func (b *Block) Decrypt(dst, src []byte) {
+	if len(src) < 16 {
+		panic("crypto/aes: input not full block")
+	}
+	if len(dst) < 16 {
+		panic("crypto/aes: output not full block")
+	}
+	copy(dst[:16], BlockUF(1, b.key, src[:16]))
+}
+
+type GCM struct {
+	key       []byte
+	nonceSize int
+}
+
+var errZeroNonce = errorString("cipher: the nonce can't have zero length, or the security of the key will be immediately compromised")
+var errOpen = errorString("cipher: message authentication failed")
+
+func (g *GCM) NonceSize() int { return g.nonceSize }
+func (g *GCM) Overhead() int  { return 16 }
+func (g *GCM) Seal(dst, nonce, plaintext, additionalData []byte) []byte {
+	if len(nonce) != g.nonceSize {
+		panic("crypto/cipher: incorrect nonce length given to GCM")
+	}
+	return append(dst, SealUF(g.key, nonce, plaintext, additionalData)...)
+}
+func (g *GCM) Open(dst, nonce, ciphertext, additionalData []byte) ([]byte, error) {
+	if len(nonce) != g.nonceSize {
+		panic("crypto/cipher: incorrect nonce length given to GCM")
+	}
+	if len(ciphertext) < 16 {
+		return nil, errOpen
+	}
+	p, ok := OpenMatch(g.key, nonce, ciphertext, additionalData)
+	if !ok {
+		return nil, errOpen
+	}
+	return append(dst, p...), nil
+}
+
+type CTR struct {
+	key, iv []byte
+	pos     int
+}
+
+func (c *CTR) XORKeyStream(dst, src []byte) {
+	if len(dst) < len(src) {
+		panic("crypto/cipher: output smaller than input")
+	}
+	for i := range src {
+		dst[i] = src[i] ^ KeystreamUF(c.key, c.iv, c.pos)
+		c.pos++
+	}
 }
